@@ -1371,9 +1371,15 @@ class Mailbox:
 
         # Update counts and commit state of the mailbox to the db.
         #
-        self.mtime = await Mailbox.get_actual_mtime(
-            self.server.mailbox, self.name
-        )
+        # NOTE: The mtime we record is the one from before we looked at the
+        #       folder's messages, not the folder's mtime now: mail delivered
+        #       while we were busy above (we await several times) is not in
+        #       `msg_keys`, and recording a newer mtime would make every
+        #       following check skip the folder until something else changes
+        #       it. The price is one cheap rescan after our own write to
+        #       `.mh_sequences`.
+        #
+        self.mtime = max(self.mtime, start_mtime)
         self.check_set_haschildren_attr()
         await self.commit_to_db()
 
